@@ -2163,6 +2163,9 @@ func (g *generator) function1(p *pkgInfo, spec fnSpec, group int, fd *ast.FuncDe
 	if t.err == nil {
 		t.checkNames(fd, seen)
 	}
+	if t.err == nil {
+		t.checkAliasing(fd)
+	}
 	body := ""
 	if t.err == nil {
 		body = pre + t.stmts(fd.Body.List, func() string {
